@@ -98,6 +98,37 @@ class SimQueue:
     def empty(self) -> bool:
         return not self.items
 
+
+PIPE_BUF_BYTES = 65536
+
+
+class SimSimpleQueue(SimQueue):
+    """multiprocessing.SimpleQueue: no feeder thread, put() writes straight into an OS pipe and blocks while the pipe (64 KiB on Linux) is
+    full - unlike Queue.put, which hands the object to a background thread and returns at once."""
+
+    def __init__(self, sim: "SimMP"):
+        super().__init__(sim)
+        self.sizes: deque = deque()
+
+    def put(self, obj: Any) -> None:
+        import pickle
+
+        try:
+            n = len(pickle.dumps(obj, protocol=pickle.HIGHEST_PROTOCOL))
+        except Exception:
+            n = 512
+        # a message larger than the whole buffer can only be written while somebody reads: it needs an empty pipe *and* then blocks until read;
+        # modelled as "fits only into an empty pipe"
+        self.sim.sched.block(lambda: (sum(self.sizes) + n <= PIPE_BUF_BYTES) or not self.sizes and n <= PIPE_BUF_BYTES, None, what="SimpleQueue put (pipe full)")
+        self.items.append(obj)
+        self.sizes.append(n)
+        self.sim.count("simple_queue_put")
+
+    def get(self, block: bool = True, timeout: Optional[float] = None) -> Any:
+        x = super().get(block, timeout)
+        self.sizes.popleft()
+        return x
+
     def close(self) -> None:
         pass
 
@@ -171,6 +202,9 @@ class SimCtx:
 
     def Queue(self, maxsize: int = 0):
         return SimQueue(self.sim)
+
+    def SimpleQueue(self):
+        return SimSimpleQueue(self.sim)
 
     def Array(self, typecode: str, n: int, lock: bool = True):
         return SimArray(typecode, n)
